@@ -66,7 +66,8 @@ def observe(case, idx):
             m |= 1 << (k - 1)
         subs.append([m] + [ex.graph.compound_priority[f"f{k}"] if k in g else 0 for k in range(1, n + 1)])
     row["subs"] = subs
-    conf = {"nodes": {f"f{k}": {"priority": case["prio2"][k - 1]} for k in range(1, n + 1)}}
+    named = case.get("conf") or list(range(1, n + 1))
+    conf = {"nodes": {f"f{k}": {"priority": case["prio2"][k - 1]} for k in named}}
     how = idx % 5
     if how == 3:
         with tempfile.NamedTemporaryFile("w", suffix=".json", delete=False) as f:
@@ -82,6 +83,9 @@ def observe(case, idx):
     else:
         d.config_from_dict(conf)
     row["cp_reconf"] = [d.graph_ids.compound_priority[f"f{k}"] for k in range(1, n + 1)]
+    # a second configuration that does not touch priorities must leave the table alone
+    d.config_from_dict({"nodes": {f"f{1 + idx % n}": {"is_sequential": False}}})
+    row["cp_reconf2"] = [d.graph_ids.compound_priority[f"f{k}"] for k in range(1, n + 1)]
     rec = Order()
     _verif.sink = rec
     try:
